@@ -857,10 +857,26 @@ impl Xot {
                 "Cannot replace document node".to_string(),
             ));
         }
-        // there should always be a parent as we're not document node
-        let parent = self.parent(replaced_node).unwrap();
-        // record previous sibling
-        let previous_node = self.previous_sibling(replaced_node);
+        let parent = self.parent(replaced_node).ok_or_else(|| {
+            Error::InvalidOperation("Cannot replace a node that has no parent".to_string())
+        })?;
+        // validate the replacing node before the replaced node is destroyed
+        self.add_structure_check(Some(parent), replacing_node)?;
+        if self
+            .ancestors(replacing_node)
+            .any(|ancestor| ancestor == replaced_node)
+        {
+            return Err(Error::InvalidOperation(
+                "Cannot replace a node with itself or with one of its descendants".to_string(),
+            ));
+        }
+        // record previous sibling; an attribute or namespace node has no
+        // position among the normal children, so its replacement goes first
+        let previous_node = if self.value(replaced_node).value_category() == ValueCategory::Normal {
+            self.previous_sibling(replaced_node)
+        } else {
+            None
+        };
         // remove the replaced node, use low-level remove_tree to avoid
         // text node reconciliation and document element detection
         replaced_node.get().remove_subtree(self.arena_mut());
